@@ -121,3 +121,7 @@ package cty
 //@   fresh result.1
 //@   ensures (= result.0 (deep_unmark val))
 //@   ensures (and (MapC<Any~Unit>.ok (select $H<MapC<Any~Unit>> result.1)) (= (MapC<Any~Unit>.dom (select $H<MapC<Any~Unit>> result.1)) (deep_marks val)))
+//
+// Package-level values that other contracts rely on (established by the package initialisers).
+//@ global cty.NilVal (= $g (mk.cty.Value (mk.cty.Type nil.Any) nil.Any))
+//@ global cty.totallyUnknown (and ((_ is box<*cty.unknownType>) $g) (not (= (unbox<*cty.unknownType> $g) 0)) (= (cty.unknownType.refinement (select F.cty.unknownType (unbox<*cty.unknownType> $g))) nil.Any))
